@@ -740,12 +740,28 @@ def rebuild_order(prog, an, rep):
                       'still there (the test that skips the deletion does '
                       'not look at the list of q/ branches)',
                       path=c.describe_path(path))
+    # without queue branches the job ends as a success: every other way out
+    # that can be reached past the "no q/ branch" outcome needs the list to
+    # be non-empty (decided along the paths, so that the same test made
+    # twice reads the same)
+    tb = an.branch_nodes(f, lambda e: src(e) in qlist, True, expand=None)
+    ok_out = [n.id for n in c.nodes.values() if n.kind == 'raise_stmt' and
+              (raise_class(an, f, n.ast) or '').endswith('.JobSuccess')]
+    after = set()
     for b in eb:
-        first = _first_exit(an, f, c, b)
-        rep.check(first is not None and first[0] == 'raise' and
-                  (first[1] or '').endswith('.JobSuccess'), R, f.qname +
-                  ': no queue branch -> JobSuccess', f.where(),
-                  'without queue branches the job does %s' % (first,))
+        after |= set(c.reachable(start=b, use_exc=False))
+    outs = [n for n in c.nodes.values() if n.id in after and (
+        n.kind == 'raise_stmt' or n.id == c.exit) and n.id not in ok_out]
+    for n in outs:
+        rep.evaluated()
+        ok, path = c.must_pass(tb + ok_out, n.id, use_exc=False)
+        rep.check(ok, R, f.qname + ': no queue branch -> JobSuccess',
+                  f.where(n) if n.ast is not None else f.where(),
+                  'without queue branches the job can end otherwise than '
+                  'with JobSuccess', path=c.describe_path(path))
+    rep.check(bool(eb) and bool(ok_out), R, f.qname + ': no queue branch '
+              '-> JobSuccess (the outcome exists)', f.where(),
+              'no test on the list of q/ branches, or no JobSuccess')
 
 
 def force_merge(prog, an, rep):
